@@ -8,10 +8,12 @@ import (
 	"go/constant"
 	"go/token"
 	"go/types"
+	"sort"
 	"strings"
 	"unicode"
 
 	"golang.org/x/text/unicode/norm"
+	"golang.org/x/tools/go/packages"
 	"golang.org/x/tools/go/ssa"
 )
 
@@ -34,8 +36,11 @@ func (a *Analysis) ruleT1() {
 	pos := a.P.Pos(a.G.LangType.Obj().Pos())
 	r.Counts["T1.constants"] = len(a.G.LangConst)
 	r.Check(len(a.G.LangConst) == len(SpecLangs), "T1", "Language/count", pos, "",
-		fmt.Sprintf("%d constants of type Language", len(a.G.LangConst)),
-		fmt.Sprintf("%d constants of type Language, BIP39 table has %d", len(a.G.LangConst), len(SpecLangs)))
+		fmt.Sprintf("%d exported constants of type Language", len(a.G.LangConst)),
+		fmt.Sprintf("%d exported constants of type Language, BIP39 table has %d", len(a.G.LangConst), len(SpecLangs)))
+	for _, c := range a.G.LangOther {
+		r.OK("T1", "Language/unexported/"+c.Name, a.P.Pos(c.Pos), "", "unexported constant %s = %d of type Language: not a language a caller can name", c.Name, c.Val)
+	}
 	seenVal := map[int64]string{}
 	for _, c := range a.G.LangConst {
 		cp := a.P.Pos(c.Pos)
@@ -183,6 +188,15 @@ func (a *Analysis) ruleE2() {
 		}
 		for _, imp := range []string{"unsafe", "reflect", "sync/atomic", "C"} {
 			if _, ok := pk.Imports[imp]; ok {
+				if imp == "sync/atomic" {
+					// accepted when every use is accounted for by E1's counter class
+					if why := a.atomicsAccounted(pk); why == "" {
+						r.OK("E2", "import/"+pk.PkgPath+"/"+imp, "-", "", "sync/atomic is used for event counters only (E1 class counter)")
+					} else {
+						r.Bad("E2", "import/"+pk.PkgPath+"/"+imp, "-", "", "package %s imports %s: %s", pk.PkgPath, imp, why)
+					}
+					continue
+				}
 				r.Bad("E2", "import/"+pk.PkgPath+"/"+imp, "-", "", "package %s imports %s", pk.PkgPath, imp)
 			}
 		}
@@ -216,6 +230,94 @@ func (a *Analysis) ruleE2() {
 		r.OK("E2", "package/"+pk.PkgPath, "-", "", "no go statement, channel operation, sync/atomic, unsafe, reflect, cgo or linkname")
 	}
 	r.Counts["E2.nodes"] = n
+}
+
+// atomicsAccounted: every mention of sync/atomic in the non-test files of pk is a call whose
+// first argument points into an event counter (E1 class "counter") or the type of such a
+// counter in its package-level declaration; "" if so, otherwise the first use that is not.
+func (a *Analysis) atomicsAccounted(pk *packages.Package) string {
+	sp := a.P.SSA.Package(pk.Types)
+	if sp == nil {
+		return "package not built"
+	}
+	// declarations of counters: source ranges in which the type may be named
+	type span struct{ lo, hi token.Pos }
+	var okSpans []span
+	for _, f := range pk.Syntax {
+		if strings.HasSuffix(a.P.Fset.Position(f.Pos()).Filename, "_test.go") {
+			continue
+		}
+		for _, d := range f.Decls {
+			gd, ok := d.(*ast.GenDecl)
+			if !ok || gd.Tok != token.VAR {
+				continue
+			}
+			for _, spec := range gd.Specs {
+				vs := spec.(*ast.ValueSpec)
+				all := len(vs.Names) > 0
+				for _, nm := range vs.Names {
+					g, _ := sp.Members[nm.Name].(*ssa.Global)
+					if g == nil || !a.isCounter(g) {
+						all = false
+					}
+				}
+				if all {
+					okSpans = append(okSpans, span{vs.Pos(), vs.End()})
+				}
+			}
+		}
+	}
+	var ids []*ast.Ident
+	for id, obj := range pk.TypesInfo.Uses {
+		if obj.Pkg() != nil && obj.Pkg().Path() == "sync/atomic" {
+			ids = append(ids, id)
+		}
+	}
+	sort.Slice(ids, func(i, j int) bool { return ids[i].Pos() < ids[j].Pos() })
+	for _, id := range ids {
+		if strings.HasSuffix(a.P.Fset.Position(id.Pos()).Filename, "_test.go") {
+			continue
+		}
+		obj := pk.TypesInfo.Uses[id]
+		switch obj.(type) {
+		case *types.TypeName:
+			in := false
+			for _, s := range okSpans {
+				if id.Pos() >= s.lo && id.Pos() < s.hi {
+					in = true
+				}
+			}
+			if !in {
+				return "type " + obj.Name() + " is used at " + a.P.Pos(id.Pos()) + " other than to declare a package-level event counter"
+			}
+		case *types.Func:
+			// judged at the call below
+		default:
+			return obj.Name() + " is used at " + a.P.Pos(id.Pos())
+		}
+	}
+	for _, fn := range a.P.ModuleFuncs(false) {
+		if fn.Pkg != sp && (fn.Parent() == nil || fn.Parent().Pkg != sp) {
+			continue
+		}
+		for _, b := range fn.Blocks {
+			for _, in := range b.Instrs {
+				for _, op := range in.Operands(nil) {
+					f, ok := (*op).(*ssa.Function)
+					if !ok || f.Pkg == nil || f.Pkg.Pkg.Path() != "sync/atomic" {
+						continue
+					}
+					if f.Name() == "init" && f.Synthetic != "" {
+						continue // the imported package's initialiser, called by this package's
+					}
+					if !a.counterBump(in) {
+						return f.String() + " is used at " + a.P.InstrPos(in) + " on something that is not an event counter"
+					}
+				}
+			}
+		}
+	}
+	return ""
 }
 
 // ---------------------------------------------------------------- T3
@@ -344,7 +446,21 @@ func (a *Analysis) ruleT3() {
 			}
 		}
 		if builder == nil {
-			r.Bad("T3", "writers/"+M.Name(), pos, "", "%s is never written: lookups for %s always fail", M.Name(), lc.Name)
+			taken := ""
+			for _, u := range a.Ef.AddrUse[M] {
+				if !a.P.IsTestFunc(u.Parent()) {
+					taken = a.P.InstrPos(u)
+					break
+				}
+			}
+			if taken != "" {
+				// written, if at all, through a pointer the rules do not follow (a table of
+				// `&fooMapping` filled in a loop, descriptors holding the pointer): not one of the
+				// recognised constructions
+				r.Unk("T3", "writers/"+M.Name(), pos, "", "%s is not assigned by name anywhere, but its address is taken (%s): a construction through that pointer is not one of the recognised forms", M.Name(), taken)
+			} else {
+				r.Bad("T3", "writers/"+M.Name(), pos, "", "%s is never written: lookups for %s always fail", M.Name(), lc.Name)
+			}
 			continue
 		}
 		if esc := a.Ef.Escapes[M]; len(esc) > 0 {
@@ -380,7 +496,18 @@ func (a *Analysis) ruleT3() {
 						same = false
 					}
 				}
-				if !same || guard == nil {
+				allUnnamed := true
+				for _, d := range mine {
+					if d.Guard != nil {
+						allUnnamed = false
+					}
+				}
+				if allUnnamed {
+					// an element of an array of sync.Once, a Once reached through a pointer: which
+					// Once it is, and what else runs under it, is not something these rules follow
+					r.Unk("T3", "guard/"+M.Name(), a.P.InstrPos(mine[0].Instr), "", "%s is run under a sync.Once that is not a package-level variable of its own (an array element, a pointer): not one of the recognised guards", fnKey(builder))
+					guard = nil
+				} else if !same || guard == nil {
 					r.Bad("T3", "guard/"+M.Name(), a.P.InstrPos(mine[0].Instr), "", "%s is run under different guards (or a guard that is not a package-level sync.Once)", fnKey(builder))
 					guard = nil
 				} else {
@@ -426,7 +553,7 @@ func (a *Analysis) ruleT3() {
 				continue
 			}
 			okA = false
-			r.Bad("T3", "address/"+M.Name(), a.P.InstrPos(u), "", "the address of %s is taken in %s: what is read or written through that pointer is outside the guard discipline (a read through it races with the construction)", M.Name(), fnKey(u.Parent()))
+			r.Unk("T3", "address/"+M.Name(), a.P.InstrPos(u), "", "the address of %s is taken in %s: what is read or written through that pointer is not followed by the guard rules (a read through it that does not come after the guard's Do would race with the construction)", M.Name(), fnKey(u.Parent()))
 		}
 		if okA {
 			r.OK("T3", "address/"+M.Name(), pos, "", "%s is only ever loaded or assigned by name", M.Name())
@@ -453,7 +580,19 @@ func (a *Analysis) ruleT3() {
 				}
 			}
 			if !dom {
-				r.Bad("T3", "read-after-guard/"+M.Name(), a.P.InstrPos(ld), "", "%s is read in %s without a dominating %s.Do: the read races with the construction", M.Name(), fnKey(fn), guardName(guard))
+				// the builder may run under a guard the rules cannot name (an element of an array of
+				// sync.Once, a Once behind a pointer): then nothing is known, not "it races"
+				unnamed := false
+				for _, d := range dos {
+					if d.Fn == builder && d.Guard == nil && d.Instr.Parent() == fn && instrDominates(d.Instr, ld) {
+						unnamed = true
+					}
+				}
+				if unnamed {
+					r.Unk("T3", "read-after-guard/"+M.Name(), a.P.InstrPos(ld), "", "%s is read in %s after a Do whose sync.Once is not a package-level variable of its own (an array element, a pointer): not one of the recognised guards", M.Name(), fnKey(fn))
+				} else {
+					r.Bad("T3", "read-after-guard/"+M.Name(), a.P.InstrPos(ld), "", "%s is read in %s without a dominating %s.Do: the read races with the construction", M.Name(), fnKey(fn), guardName(guard))
+				}
 				okL = false
 			}
 		}
@@ -616,6 +755,31 @@ func (a *Analysis) fillShape(f *ssa.Function, mapOK func(ssa.Value) bool) (ssa.V
 		if !ok || calleeName(ln) != "len" || !sameList(ln.Call.Args[0]) {
 			return nil, "loop bound is not the length of the same list"
 		}
+		if iphi, isPhi := ia.Index.(*ssa.Phi); isPhi && iphi.Block() == h {
+			// `for i := 0; i < len(list); i++`: the counter starts at 0 and goes up by one
+			okFor := len(iphi.Edges) == len(h.Preds)
+			for i, p := range h.Preds {
+				if !okFor {
+					break
+				}
+				if body[p] {
+					inc, ok := iphi.Edges[i].(*ssa.BinOp)
+					one, okc := int64(0), false
+					if ok {
+						one, okc = intConst(inc.Y)
+					}
+					if !ok || inc.Op != token.ADD || inc.X != ssa.Value(iphi) || !okc || one != 1 {
+						okFor = false
+					}
+				} else if c, ok := intConst(iphi.Edges[i]); !ok || c != 0 {
+					okFor = false
+				}
+			}
+			if !okFor {
+				return nil, "index loop does not run from 0 upwards in steps of one"
+			}
+			continue
+		}
 		add, ok := ia.Index.(*ssa.BinOp)
 		if !ok || add.Op != token.ADD {
 			return nil, "index is not a range index"
@@ -770,6 +934,17 @@ func (a *Analysis) t3Lazy(lc LangCtx, M *ssa.Global, insts []lazyInst, usedGuard
 		}
 		for _, d := range a.onceDoCalls() {
 			if d.Guard == guard {
+				mine := false
+				if lh.Maker {
+					for _, in := range insts {
+						if in.Site == d.Instr {
+							mine = true // the Do that runs what the maker returned for this map
+						}
+					}
+				}
+				if mine {
+					continue
+				}
 				r.Bad("T3", "guard/"+M.Name(), a.P.InstrPos(d.Instr), "", "guard %s is also the receiver of a direct Do", guard.Name())
 				okG = false
 			}
